@@ -15,7 +15,8 @@ from vf.gen import TDIM
 class LinGen:
     """Productions that are linear in one argument."""
 
-    def __init__(self, G, cplx=False, derivs=True, max_rank=3):
+    def __init__(self, G, cplx=False, derivs=True, max_rank=3, cond=True):
+        self.cond = cond
         self.G = G
         self.cplx = cplx
         self.derivs = derivs
@@ -90,7 +91,7 @@ class LinGen:
             elif op == "sum":
                 e = ["add", e, ["mul", G.expr((), (), 1), e]] if G.chance(1, 2) else ["sub", ["mul", ["lit", 2], e], e]
             elif op == "cond":
-                if self.cplx:
+                if self.cplx or not self.cond:
                     continue
                 c = [G.pick(["lt", "gt", "le", "ge"]), G.expr((), (), 1), G.expr((), (), 1)]
                 e = ["cond", c, e, ["mul", ["lit", G.pick([2, -1, 0.5])], e]]
